@@ -65,6 +65,16 @@ EncDomOK(e) ==
           ELSE e.refused \/ e.enc = EncodeU(e.val, n)
      ELSE e.refused \/ Len(e.enc) # n \/ ~CanonU(e.enc)
 
+\* a circuit whose gates read a plain instance column at a non-zero rotation: the checker accepts the honest run, the real
+\* verifier accepts the honest public-input vector and no edited, rotated, shorter or longer one
+PubRotOK(e) ==
+  /\ ~Has(e, "harness_error")
+  /\ \A i \in 1..Len(e.mock) : e.mock[i] = "ok"
+  /\ e.verify = "ok"
+  /\ Len(e.edits) >= 1 /\ \A j \in 1..Len(e.edits) : e.edits[j].res = "err"
+  /\ e.shorter = "err" /\ e.longer = "err"
+  /\ e.rotated_differs => e.rotated = "err"
+
 CurveOK(e) ==
   LET c == CurveOf(e.curve) IN
   /\ Trim(e.p) = c.p /\ Trim(e.r) = c.r /\ Trim(e.a) = c.a
@@ -78,7 +88,8 @@ TPub == l <= Len(Rec) /\ Ev.ev = "Pub" /\ PubOK(Ev) /\ l' = l + 1
 TAcc == l <= Len(Rec) /\ Ev.ev = "Acc" /\ AccOK(Ev) /\ l' = l + 1
 TPubC == l <= Len(Rec) /\ Ev.ev = "PubC" /\ PubCOK(Ev) /\ l' = l + 1
 TEncDom == l <= Len(Rec) /\ Ev.ev = "EncDom" /\ EncDomOK(Ev) /\ l' = l + 1
-TraceSpec == TInitL /\ [][THeader \/ TCurve \/ TPub \/ TAcc \/ TPubC \/ TEncDom]_l
+TPubRot == l <= Len(Rec) /\ Ev.ev = "PubRot" /\ PubRotOK(Ev) /\ l' = l + 1
+TraceSpec == TInitL /\ [][THeader \/ TCurve \/ TPub \/ TAcc \/ TPubC \/ TEncDom \/ TPubRot]_l
 
 TraceAccepted ==
   LET d == TLCGet("stats").diameter IN
